@@ -202,6 +202,39 @@ def run(tier: str) -> int:
                 rep.violation(f"curve:{fn}:forces:zero-force-coordinate", f"a coordinate on which every committee member predicts zero force (zero variance) gets delta {d[0, 0]}, expected max_delta 0.03 (the others: {d[1, 0]}, expected the midpoint 0.02)", {"fn": fn})
         except Exception as ex:  # noqa: BLE001
             rep.violation(f"raise:update_delta:zero-force-coordinate:{type(ex).__name__}", f"update_delta raised {ex!r} for a coordinate with zero committee force", {"fn": fn})
+    # ---- committee members that disagree in SIGN on a coordinate: the coefficient is std / mean(|f|) -- for two members
+    # (a, -b) that is exactly 1 -- never std / |mean f| ------------------------------------------------------------------
+    for fn in ("tanh", "exp"):
+        afb = make("forces", fn, 1, 3, 1.0)
+        afb.atoms.calc.nvar = 0
+        afb.atoms.calc.publish(afb.atoms)
+        n_ = len(afb.atoms)
+        fc = np.ones((2, n_, 3))
+        fc[1] = -0.8
+        fc[1, 0, 0] = -1.0  # (1, -1): the mean cancels exactly
+        afb.atoms.calc.results["forces_comm"] = fc
+        rep.count(("sign-disagreement", fn))
+        afb.update_delta()
+        if not close(afb.delta, 0.02):
+            rep.violation(f"curve:{fn}:forces:members-disagree-in-sign", f"two committee members (1, -0.8) / (1, -1) have std / mean|f| = 1 = the reference: delta {np.asarray(afb.delta).ravel()[:3]}, expected the midpoint 0.02", {"fn": fn})
+    # ---- energy scheme with realistic total energies: a large common offset and a small spread ---------------------------
+    for fn in ("tanh", "exp"):
+        for offset in (-113.72, -7468.9):
+            for nn in (0, 1, 2):
+                afb = make("energy", fn, 1, 3)
+                afb.atoms.calc.nvar = nn
+                afb.atoms.calc.publish(afb.atoms)
+                n_ = len(afb.atoms)
+                afb.atoms.calc.results["energies"] = np.array([-nn * REF * n_, nn * REF * n_]) + offset
+                rep.count(("energy-offset", fn, offset, nn))
+                afb.update_delta()
+                f_ = {0: 1.0, 1: 0.5}.get(nn)
+                if f_ is None:
+                    f_ = (1 - np.tanh(2 * np.arctanh(0.5))) if fn == "tanh" else 0.25
+                want_ = 0.01 + 0.02 * f_
+                # (np.std of numbers of size 1e4 with a spread of 1e-2 is itself only good to ~1e-10 relative)
+                if not close(afb.delta, want_, tol=1e-8):
+                    rep.violation(f"curve:{fn}:energy:large-offset", f"committee energies {offset} -+ {nn} x reference x N: delta {np.asarray(afb.delta).ravel()[:1]}, expected {want_}", {"fn": fn, "offset": offset, "n": nn})
     # ---- the fallback: no committee data -> reference variance (midpoint), through step() as well -------
     for scheme in ("forces", "energy"):
         for fn in ("tanh", "exp"):
